@@ -660,8 +660,13 @@ func c18Run(sc *C18Sc, env *Env, bubble bool) (res *Violation) {
 		}
 		on()
 	}}
+	// a breakpoint on the program's final JP 0: the last point at which SP is still the program's
+	jpAddr := tinycpm.Start + uint16(len(prog)) - 3
+	cpu.BreakPoints = map[uint16]struct{}{}
+	if !sc.BadFnFinal {
+		cpu.BreakPoints[jpAddr] = struct{}{}
+	}
 	if sc.BPAfter {
-		cpu.BreakPoints = map[uint16]struct{}{}
 		for _, a := range rets {
 			cpu.BreakPoints[a] = struct{}{}
 		}
@@ -692,6 +697,14 @@ func c18Run(sc *C18Sc, env *Env, bubble bool) (res *Violation) {
 			continue
 		}
 		// (a cancellation that ties with the arrival at a breakpoint may be reported as either: the arrival counts)
+		if errors.Is(err, z80.ErrBreakPoint) && cpu.PC == jpAddr && !sc.BadFnFinal && !(sc.BPAfter && nRet < len(rets) && rets[nRet] == jpAddr) {
+			// the program is about to jump to address 0: every BDOS call has returned, with SP where it was
+			// (what the warm boot does with SP afterwards is its own business)
+			if cpu.SP != sc.SP {
+				return viol("returns-to-caller", "at the program's final JP 0 SP=%04x; it was %04x when the program started and every CALL 5 returns with SP intact", cpu.SP, sc.SP)
+			}
+			continue
+		}
 		if errors.Is(err, z80.ErrBreakPoint) || errors.Is(err, context.Canceled) {
 			env.Fire("breakpoint-after-call")
 			switch {
@@ -801,16 +814,14 @@ func c18Run(sc *C18Sc, env *Env, bubble bool) (res *Violation) {
 		if sc.BPAfter && nRet != len(rets) {
 			return viol("returns-to-caller", "%d BDOS calls, %d returns to the caller observed", len(rets), nRet)
 		}
-		if cpu.SP != sc.SP {
-			return viol("returns-to-caller", "final SP=%04x, want %04x", cpu.SP, sc.SP)
-		}
 		if len(sc.Events) == 0 && len(sc.CancelAt) == 0 && len(sc.Second) == 0 && !bubble {
 			// a finished machine stays finished: a host that calls Run again (a `for { Run }` driver) finds
 			// it halted at FF03 again, and nothing more reaches the console
 			n0 := len(console())
+			sp0 := cpu.SP
 			for k := 0; k < 2; k++ {
-				if err := cpu.Run(context.Background()); err != nil || cpu.PC != 0xff03 || !cpu.HALT || cpu.SP != sc.SP {
-					return viol("end-state", "Run called again on the machine that had ended its run halted at FF03: returned %v with PC=%04x HALT=%t SP=%04x (was %04x)", err, cpu.PC, cpu.HALT, cpu.SP, sc.SP)
+				if err := cpu.Run(context.Background()); err != nil || cpu.PC != 0xff03 || !cpu.HALT || cpu.SP != sp0 {
+					return viol("end-state", "Run called again on the machine that had ended its run halted at FF03: returned %v with PC=%04x HALT=%t SP=%04x (was %04x)", err, cpu.PC, cpu.HALT, cpu.SP, sp0)
 				}
 			}
 			if n := len(console()); n != n0 {
@@ -824,7 +835,11 @@ func c18Run(sc *C18Sc, env *Env, bubble bool) (res *Violation) {
 	}
 	// console stream
 	if len(sc.WriteFail) == 0 || fw.calls <= minInt(sc.WriteFail) {
-		if got := console(); !bytes.Equal(got, expect) {
+		got := console()
+		if sc.BadFnFinal && len(got) > len(expect) {
+			got = got[:len(expect)] // (what a BDOS prints when it is asked for a function it does not have is not specified)
+		}
+		if !bytes.Equal(got, expect) {
 			return viol("console-stream", "console received %d bytes %s, program asked for %d bytes %s", len(got), clip(got), len(expect), clip(expect))
 		}
 	} else {
